@@ -26,15 +26,17 @@ type Ctx struct {
 	Repo string
 	// Devirtualized counts the dynamic calls with a single possible target rewritten to static form (devirt.go).
 	Devirtualized int
-	Tier          string
-	Fset          *token.FileSet
-	Pkgs          []*packages.Package          // module packages (non-test)
-	ByRel         map[string]*packages.Package // "internal/workers" -> package
-	Prog          *ssa.Program
-	SSA           map[string]*ssa.Package // rel path -> ssa package
-	AllFuncs      []*ssa.Function         // every module function, method and function literal with a body
-	GOARCH        string
-	vta           *callgraph.Graph
+	// Normalized counts the comparisons mirrored so that their constant operand is on the right (devirt.go).
+	Normalized int
+	Tier       string
+	Fset       *token.FileSet
+	Pkgs       []*packages.Package          // module packages (non-test)
+	ByRel      map[string]*packages.Package // "internal/workers" -> package
+	Prog       *ssa.Program
+	SSA        map[string]*ssa.Package // rel path -> ssa package
+	AllFuncs   []*ssa.Function         // every module function, method and function literal with a body
+	GOARCH     string
+	vta        *callgraph.Graph
 }
 
 // VTA builds (once) the whole-program VTA call graph over a CHA graph: the most precise resolution of
